@@ -98,6 +98,12 @@ def _check(n, a, b, r, c, order, off, args, gap=0):
   ok = ok and py.calls == (1 if need > 0 else 0) and (py.asked == ([need] if need > 0 else []))
   if not ok:
     return finish(False, args, obs='first call')
+  # a completion attempt that the service REJECTS (nothing to complete the trial with) must not take the trial away from
+  # the worker: afterwards the same request still returns it
+  if got_ids and not after['trials'][got_ids[0]]['meas']:
+    _, exc_c = svc.call(sv.CompleteTrial, vs.CompleteTrialRequest(name=svc.trial_name(got_ids[0])))
+    if exc_c is None or svc.abstract(sv) != after:
+      return finish(False, args, obs='rejected completion changed the stored trial')
   # sticky: the same call again returns the same trials (first N own ACTIVE) and creates nothing
   calls_before = py.calls
   op2, exc2 = svc.call(sv.SuggestTrials, vs.SuggestTrialsRequest(parent=S, suggestion_count=n, client_id='w'))
